@@ -26,6 +26,15 @@ CHECKS = {
         "design_ref": "DESIGN.md section 3, C03",
         "note": "Trusted: snapshot probes (public API reads). Known finding K4 (uint64 > 2^53) is excluded from the main generator and probed separately.",
     },
+    "C17": {
+        "technique": "metamorphic property-based testing: generated partitions of one exposure interval over generated pipelines of the library's deterministic flux-integrating models; partition-vs-single-readout and interval-scaling relations",
+        "text": "For generated intervals, partitions (1..12 readouts), start times, geometries and subsets of the real library models (illumination x3, "
+                "load_image, stripe_pattern, load_charge, noise-free dark_current, expectation-value conversion, simple_collection) the non-destructive "
+                "final pixel frame must equal the single-readout frame, intermediate readouts must be proportional to elapsed time, destructive frames "
+                "proportional to their own duration, and scaling all intervals must scale all frames. Exploration.",
+        "design_ref": "DESIGN.md section 3, C17",
+        "note": "Relative tolerance 1e-12 x readouts. Trusted: numpy for the comparison; the relation itself needs no reference implementation.",
+    },
     "C13": {
         "technique": "model-based property testing of generated operation sequences (Hypothesis) against a reference container model",
         "text": "Generated set/update/+=/empty/read/==/detector-assignment sequences on photon, pixel, signal, image and phase "
